@@ -360,7 +360,7 @@ func (o *oracleC08) AfterStep(w *World, st *Step, msgs []sdk.Msg, res *abci.Resp
 				break
 			}
 			w.Probe("accept_ok")
-			if bid, ok := o.pre.bids[x.From+key]; ok {
+			if bid, ok := o.pre.bids[canonAddr(x.From)+key]; ok {
 				price, err := sdk.ParseCoinsNormalized(bid.Price)
 				if err == nil {
 					for _, c := range price {
@@ -396,7 +396,7 @@ func (o *oracleC08) AfterStep(w *World, st *Step, msgs []sdk.Msg, res *abci.Resp
 				w.Violate("C08:owner-changed-without-consent:"+kind, "name %s bought without a listing", key)
 				break
 			}
-			if creator != pn.Value {
+			if canonAddr(creator) != canonAddr(pn.Value) {
 				w.Violate("C08:stale-listing-honoured", "name %s owned by %s was sold through a listing created by %s (listing owner field %s); buyer %s", key, pn.Value, creator, sale.Owner, signer)
 				break
 			}
@@ -638,7 +638,7 @@ func (o *oracleC16) AfterStep(w *World, st *Step, msgs []sdk.Msg, res *abci.Resp
 	old, existed := o.pre.names[key]
 	phase := "new"
 	if existed {
-		same := old.Value == creator
+		same := canonAddr(old.Value) == creator // the record may hold another spelling of the same account
 		switch {
 		case h < old.Expires && same:
 			phase = "live-same"
@@ -690,7 +690,7 @@ func (o *oracleC16) AfterStep(w *World, st *Step, msgs []sdk.Msg, res *abci.Resp
 		}
 	}
 	nn, ok := post.names[key]
-	if !ok || nn.Value != creator {
+	if !ok || canonAddr(nn.Value) != creator {
 		w.Violate("C16:not-resolving-to-registrant", "after registration %s resolves to %v", key, nn.Value)
 		return
 	}
